@@ -269,7 +269,7 @@ def run_c20(run):
     obs = os.path.join(run.dir, "helpers.ndjson")
     nrand = 500 if quick else 40000
     st = run.harness(["helpers", "-cases", ",".join(files), "-out", obs, "-seed", str(run.seed), "-random", str(nrand)])
-    want = sum(ncases.values()) + 4 * nrand + 1
+    want = sum(ncases.values()) + 4 * nrand + 2 * min(nrand, 300) + 1      # (+ the return-data / return-code views, 300 each at most)
     if st["lines"] != want:
         raise Infra("the harness recorded %d lines for %d generated cases + %d random ones" % (st["lines"], sum(ncases.values()), 4 * nrand))
     viols, done, _ = validate(run, obs, "HelpersTrace", P20, "tv-helpers")
